@@ -243,6 +243,10 @@ func (w *dwalk) fdump(f *dproto.FieldDescriptor) FDump {
 		d.Node = w.visit(elem)
 		if !t.IsMap() {
 			d.Acc = f.Message() == elem.Message() && (!t.IsList() || t.Message() == elem.Message())
+		} else if entry := f.Message(); entry != nil {
+			// a map field's own message is the synthetic entry {1: key, 2: value}: its value field must name the same message
+			v := entry.ByNumber(2)
+			d.Acc = v != nil && v.Type().Message() == elem.Message()
 		}
 	}
 	return d
